@@ -127,6 +127,8 @@ extern crate futures;
 #[cfg(not(target_arch = "wasm32"))]
 extern crate num_cpus;
 
+#[cfg(desync_verif)]
+pub mod verif;
 pub mod scheduler;
 pub mod desync;
 pub mod pipe;
